@@ -73,6 +73,51 @@ Proof.
     + split; [exact Hyx|]. apply Rabs_def2 in Hd1. lra.
 Qed.
 
+(** gluing two differentiable pieces with equal value and derivative at the junction *)
+Lemma derivable_pt_lim_glue f g h x l :
+  (forall y, y < x -> f y = g y) -> (exists d, 0 < d /\ forall y, x <= y < x + d -> f y = h y) ->
+  g x = h x -> derivable_pt_lim g x l -> derivable_pt_lim h x l -> derivable_pt_lim f x l.
+Proof.
+  intros Hl [d [Hd Hr]] Hjoin Hg Hh eps Heps.
+  destruct (Hg eps Heps) as [d1 H1]. destruct (Hh eps Heps) as [d2 H2].
+  assert (Hm : 0 < Rmin d (Rmin d1 d2)).
+  { apply Rmin_pos; [exact Hd|]. apply Rmin_pos; apply cond_pos. }
+  exists (mkposreal _ Hm). intros k Hk0 Hk. simpl in Hk.
+  assert (Hk1 : Rabs k < d) by (eapply Rlt_le_trans; [exact Hk|apply Rmin_l]).
+  assert (Hk2 : Rabs k < d1).
+  { eapply Rlt_le_trans; [exact Hk|]. eapply Rle_trans; [apply Rmin_r|apply Rmin_l]. }
+  assert (Hk3 : Rabs k < d2).
+  { eapply Rlt_le_trans; [exact Hk|]. eapply Rle_trans; [apply Rmin_r|apply Rmin_r]. }
+  assert (Hfx : f x = h x) by (apply Hr; lra).
+  destruct (Rlt_dec k 0) as [Hneg|Hpos].
+  - rewrite (Hl (x + k)) by lra. rewrite Hfx, <- Hjoin. apply H1; assumption.
+  - rewrite (Hr (x + k)), Hfx.
+    + apply H2; assumption.
+    + apply Rabs_def2 in Hk1. lra.
+Qed.
+
+Lemma derivable_pt_lim_glue_r f g h x l :
+  (forall y, x < y -> f y = g y) -> (exists d, 0 < d /\ forall y, x - d < y <= x -> f y = h y) ->
+  g x = h x -> derivable_pt_lim g x l -> derivable_pt_lim h x l -> derivable_pt_lim f x l.
+Proof.
+  intros Hl [d [Hd Hr]] Hjoin Hg Hh eps Heps.
+  destruct (Hg eps Heps) as [d1 H1]. destruct (Hh eps Heps) as [d2 H2].
+  assert (Hm : 0 < Rmin d (Rmin d1 d2)).
+  { apply Rmin_pos; [exact Hd|]. apply Rmin_pos; apply cond_pos. }
+  exists (mkposreal _ Hm). intros k Hk0 Hk. simpl in Hk.
+  assert (Hk1 : Rabs k < d) by (eapply Rlt_le_trans; [exact Hk|apply Rmin_l]).
+  assert (Hk2 : Rabs k < d1).
+  { eapply Rlt_le_trans; [exact Hk|]. eapply Rle_trans; [apply Rmin_r|apply Rmin_l]. }
+  assert (Hk3 : Rabs k < d2).
+  { eapply Rlt_le_trans; [exact Hk|]. eapply Rle_trans; [apply Rmin_r|apply Rmin_r]. }
+  assert (Hfx : f x = h x) by (apply Hr; lra).
+  destruct (Rlt_dec 0 k) as [Hpos|Hneg].
+  - rewrite (Hl (x + k)) by lra. rewrite Hfx, <- Hjoin. apply H1; assumption.
+  - rewrite (Hr (x + k)), Hfx.
+    + apply H2; assumption.
+    + apply Rabs_def2 in Hk1. lra.
+Qed.
+
 (** derivative of  c * T^m - e  *)
 Lemma derivable_pt_lim_template c m e T :
   0 < T -> derivable_pt_lim (fun t => c * Rpower t m - e) T (c * (m * Rpower T (m - 1))).
@@ -264,6 +309,36 @@ Proof.
     + unfold DDP. destruct (Rlt_dec T a); [|lra].
       replace (muL - 1 - 1) with (muL - 2) by ring. ring.
 Qed.
+
+(** differentiability AT the lower junction (given the table is differentiable there) *)
+Lemma P_deriv_at_lo : derivable_pt_lim f a (df a) -> derivable_pt_lim P a (DP a).
+Proof.
+  intro Hf. destruct (in_range a Hxa) as [_ [Hdp _]]. rewrite Hdp.
+  apply (derivable_pt_lim_glue P (fun t => 1 / 3 * AL * Rpower t muL - epsL) (fun t => - f t)).
+  - intros y Hy. unfold P. destruct (Rlt_dec y a); [reflexivity|lra].
+  - exists (b - a). split; [lra|]. intros y Hy. unfold P.
+    destruct (Rlt_dec y a); [lra|]. destruct (Rlt_dec b y); [lra|reflexivity].
+  - apply (join_p a muL AL epsL HM).
+  - replace (- df a) with (1 / 3 * AL * (muL * Rpower a (muL - 1))).
+    + apply derivable_pt_lim_template. exact Ha.
+    + rewrite <- (join_dp a muL AL epsL Hxa Hdf Hddf HM). ring.
+  - apply derivable_pt_lim_opp. exact Hf.
+Qed.
+
+Lemma DP_deriv_at_lo : derivable_pt_lim df a (ddf a) -> derivable_pt_lim DP a (DDP a).
+Proof.
+  intro Hf. destruct (in_range a Hxa) as [_ [_ Hddp]]. rewrite Hddp.
+  apply (derivable_pt_lim_glue DP (fun t => 1 / 3 * muL * AL * Rpower t (muL - 1) - 0) (fun t => - df t)).
+  - intros y Hy. unfold DP. destruct (Rlt_dec y a); [ring|lra].
+  - exists (b - a). split; [lra|]. intros y Hy. unfold DP.
+    destruct (Rlt_dec y a); [lra|]. destruct (Rlt_dec b y); [lra|reflexivity].
+  - rewrite (join_dp a muL AL epsL Hxa Hdf Hddf HM). ring.
+  - replace (- ddf a) with (1 / 3 * muL * AL * ((muL - 1) * Rpower a (muL - 1 - 1))).
+    + apply derivable_pt_lim_template. exact Ha.
+    + rewrite <- (join_ddp a muL AL epsL Hxa Hdf Hddf HM).
+      replace (muL - 1 - 1) with (muL - 2) by ring. ring.
+  - apply derivable_pt_lim_opp. exact Hf.
+Qed.
 End Lower.
 
 (** ** Upper end of the range *)
@@ -370,6 +445,36 @@ Proof.
     + apply derivable_pt_lim_template. exact H0.
     + unfold DDP. destruct (Rlt_dec T a); [lra|]. destruct (Rlt_dec b T); [|lra].
       replace (muH - 1 - 1) with (muH - 2) by ring. ring.
+Qed.
+
+(** differentiability AT the upper junction *)
+Lemma P_deriv_at_hi : derivable_pt_lim f b (df b) -> derivable_pt_lim P b (DP b).
+Proof.
+  intro Hf. destruct (in_range b Hxb) as [_ [Hdp _]]. rewrite Hdp.
+  apply (derivable_pt_lim_glue_r P (fun t => 1 / 3 * AH * Rpower t muH - epsH) (fun t => - f t)).
+  - intros y Hy. unfold P. destruct (Rlt_dec y a); [lra|]. destruct (Rlt_dec b y); [reflexivity|lra].
+  - exists (b - a). split; [lra|]. intros y Hy. unfold P.
+    destruct (Rlt_dec y a); [lra|]. destruct (Rlt_dec b y); [lra|reflexivity].
+  - apply (join_p b muH AH epsH HM).
+  - replace (- df b) with (1 / 3 * AH * (muH * Rpower b (muH - 1))).
+    + apply derivable_pt_lim_template. exact Hb.
+    + rewrite <- (join_dp b muH AH epsH Hxb Hdf Hddf HM). ring.
+  - apply derivable_pt_lim_opp. exact Hf.
+Qed.
+
+Lemma DP_deriv_at_hi : derivable_pt_lim df b (ddf b) -> derivable_pt_lim DP b (DDP b).
+Proof.
+  intro Hf. destruct (in_range b Hxb) as [_ [_ Hddp]]. rewrite Hddp.
+  apply (derivable_pt_lim_glue_r DP (fun t => 1 / 3 * muH * AH * Rpower t (muH - 1) - 0) (fun t => - df t)).
+  - intros y Hy. unfold DP. destruct (Rlt_dec y a); [lra|]. destruct (Rlt_dec b y); [ring|lra].
+  - exists (b - a). split; [lra|]. intros y Hy. unfold DP.
+    destruct (Rlt_dec y a); [lra|]. destruct (Rlt_dec b y); [lra|reflexivity].
+  - rewrite (join_dp b muH AH epsH Hxb Hdf Hddf HM). ring.
+  - replace (- ddf b) with (1 / 3 * muH * AH * ((muH - 1) * Rpower b (muH - 1 - 1))).
+    + apply derivable_pt_lim_template. exact Hb.
+    + rewrite <- (join_ddp b muH AH epsH Hxb Hdf Hddf HM).
+      replace (muH - 1 - 1) with (muH - 2) by ring. ring.
+  - apply derivable_pt_lim_opp. exact Hf.
 Qed.
 End Upper.
 
